@@ -147,3 +147,35 @@ Theorem c12_likelihood_list_defined :
     exists r, list_call f ls xs ns = Some r.
 Proof. intros L A N O. exact (@list_call_defined L A N O). Qed.
 Print Assumptions c12_likelihood_list_defined.
+
+(* ======================================================================================== *)
+(* C12's expectation is C13's (Proofs/C13_tie.v): the degree-<=2 functional [E2 m v] used in
+   [c12_expected_log_prob] is the normal moment functional [normal_expect m v] of C13 (the
+   standard-normal moments pushed through f = m + sqrt v z), for every polynomial of degree <= 2 *)
+From GPV Require Import Models.C13_quadrature Proofs.C13_quadrature Proofs.C13_moments Proofs.C13_tie.
+
+Theorem c12_E2_is_c13_normal_expect :
+  forall (m v c0 c1 c2 : R), (0 <= v)%R ->
+    E2 m v (c0, c1, c2) = normal_expect m v (c0 :: c1 :: c2 :: nil).
+Proof. exact E2_is_normal_expect. Qed.
+Print Assumptions c12_E2_is_c13_normal_expect.
+
+(* the closed form printed by the model for expected_log_prob is what ANY quadrature rule that is
+   exact on z^0, z^1, z^2 against N(0,1) (premise of C13's exactness theorem, D >= 3) returns on
+   the Gaussian log density: the analytic override and the generic quadrature path agree *)
+Theorem c12_expected_log_prob_is_exact_quadrature :
+  forall (D : nat) (ts ws : list R) (y m v r : expr),
+    (forall k, (k < D)%nat -> gh_rule ts ws 0 1 (fun x => (x ^ k)%R) = @gmom RF k) ->
+    (3 <= D)%nat -> (0 < den r)%R -> (0 <= den v)%R ->
+    den (elp_expr y m v r)
+    = gh_rule ts ws (den m) (den v) (fun f => ln (normal_pdf (den y) f (den r))).
+Proof.
+  intros D ts ws y m v r H1 H2 H3 H4. symmetry. exact (gh_reproduces_elp_expr D ts ws y m v r H1 H2 H3 H4).
+Qed.
+Print Assumptions c12_expected_log_prob_is_exact_quadrature.
+
+(* non-vacuity of the premise: the two-point Gauss-Hermite rule, D = 4 *)
+Example ex_c12_quadrature_premise :
+  forall k, (k < 4)%nat -> gh_rule ts2 ws2 0 1 (fun x => (x ^ k)%R) = @gmom RF k.
+Proof. exact two_point_premise. Qed.
+Print Assumptions ex_c12_quadrature_premise.
